@@ -123,12 +123,14 @@ func foldPureN(fn *ssa.Function, args []int64, depth int, bud *foldBudget) ([]fo
 		b, ok := t.Underlying().(*types.Basic)
 		return ok && b.Info()&types.IsFloat != 0
 	}
+	nilSet := map[ssa.Value]bool{}
 	var prev *ssa.BasicBlock
 	cur := fn.Blocks[0]
 	for {
 		var next *ssa.BasicBlock
 		phiVals := map[*ssa.Phi]int64{}
 		phiKnown := map[*ssa.Phi]bool{}
+		phiNil := map[*ssa.Phi]bool{}
 		for _, in := range cur.Instrs {
 			p, ok := in.(*ssa.Phi)
 			if !ok {
@@ -148,6 +150,16 @@ func foldPureN(fn *ssa.Function, args []int64, depth int, bud *foldBudget) ([]fo
 			} else {
 				phiKnown[p] = false
 			}
+			// the nil constant through φ-nodes (a named error result that no path assigned)
+			e := p.Edges[idx]
+			if k, isK := e.(*ssa.Const); (isK && k.IsNil()) || nilSet[e] {
+				phiNil[p] = true
+			} else {
+				phiNil[p] = false
+			}
+		}
+		for p, isNil := range phiNil {
+			nilSet[p] = isNil
 		}
 		for p, known := range phiKnown {
 			if known {
@@ -276,6 +288,25 @@ func foldPureN(fn *ssa.Function, args []int64, depth int, bud *foldBudget) ([]fo
 					env[x] = int64(bits.OnesCount64(uint64(as[0])))
 					continue
 				}
+				if callee.Pkg != nil && callee.Pkg.Pkg.Path() == "unicode" && len(as) == 1 && as[0] >= 0 && as[0] < 128 {
+					// ASCII only: the simple case mapping of the letters
+					switch callee.Name() {
+					case "ToUpper":
+						if as[0] >= 'a' && as[0] <= 'z' {
+							env[x] = as[0] - 'a' + 'A'
+						} else {
+							env[x] = as[0]
+						}
+						continue
+					case "ToLower":
+						if as[0] >= 'A' && as[0] <= 'Z' {
+							env[x] = as[0] - 'A' + 'a'
+						} else {
+							env[x] = as[0]
+						}
+						continue
+					}
+				}
 				if callee.Blocks == nil {
 					continue
 				}
@@ -300,14 +331,31 @@ func foldPureN(fn *ssa.Function, args []int64, depth int, bud *foldBudget) ([]fo
 				for _, r := range x.Results {
 					if v, ok := val(r); ok {
 						out = append(out, foldResult{known: true, k: v})
-					} else if k, isK := r.(*ssa.Const); isK && k.IsNil() {
+					} else if k, isK := r.(*ssa.Const); (isK && k.IsNil()) || nilSet[r] {
 						out = append(out, foldResult{isNil: true})
 					} else {
 						out = append(out, foldResult{})
 					}
 				}
 				return out, true
-			case *ssa.Store, *ssa.MapUpdate, *ssa.Send, *ssa.Go, *ssa.Defer, *ssa.Panic:
+			case *ssa.Store:
+				// a store into a local of the function (the packed arguments of a fmt call) is no effect
+				base := x.Addr
+				for {
+					if ia, ok := base.(*ssa.IndexAddr); ok {
+						base = ia.X
+						continue
+					}
+					if fa, ok := base.(*ssa.FieldAddr); ok {
+						base = fa.X
+						continue
+					}
+					break
+				}
+				if _, local := base.(*ssa.Alloc); !local {
+					return nil, false
+				}
+			case *ssa.MapUpdate, *ssa.Send, *ssa.Go, *ssa.Defer, *ssa.Panic:
 				return nil, false
 			}
 		}
